@@ -6,6 +6,8 @@
 //  * find_operator: the caller (evaluate_expression) slices `expr[..p]`, `expr[p..p+1]`, `expr[p+1..]` with the result, so the
 //    contract is "a returned offset is sliceable": p < len and p, p+1 are char boundaries.  Inputs: every valid UTF-8 string of
 //    at most N bytes (N in the harness name) => BOUNDED by N, unwinding assertions on.
+//  * strip_outer_parens: slices `expr[1..len-1]` itself; contract "no panic, and Some(inner) is the argument without its first
+//    byte `(` and its last byte `)`".  Same bounded input space.
 //  * apply_operator: must return Ok or Err for every pair of scalar operands and every operator text — no panic, no overflow
 //    trap.  One harness per concrete operator text and operand-variant pair, payloads fully symbolic, loop-free => COMPLETE for
 //    that pair.  `format!` (error messages) is stubbed: message text is outside the contract.
@@ -42,6 +44,30 @@ pub mod verif_kani_expression {
     find_op!(find_operator_additive_utf8_le3, 3, &['+', '-']);
     find_op!(find_operator_multiplicative_utf8_le3, 3, &['*', '/', '%']);
     find_op!(find_operator_additive_utf8_le4, 4, &['+', '-']);
+
+    // strip_outer_parens (the parenthesis repair): it slices `expr[1..len - 1]` itself, and evaluate_expression recurses on the result.
+    // Postcondition: no panic, and a returned text is the argument without its first and last byte, which are `(` and `)` (so the
+    // recursion is on a text two bytes shorter).  Same input space and bound as find_operator.
+    macro_rules! strip_parens {
+        ($name:ident, $n:expr) => {
+            #[kani::proof]
+            #[kani::unwind(6)]
+            fn $name() {
+                let bytes: [u8; $n] = kani::any();
+                let n: usize = kani::any();
+                kani::assume(n <= $n);
+                if let Ok(s) = std::str::from_utf8(&bytes[..n]) {
+                    if let Some(inner) = strip_outer_parens(s) {
+                        assert!(s.len() >= 2 && inner.len() + 2 == s.len());
+                        assert!(s.as_bytes()[0] == b'(' && s.as_bytes()[s.len() - 1] == b')');
+                        assert!(inner.as_ptr() == s.as_bytes()[1..].as_ptr());
+                    }
+                }
+            }
+        };
+    }
+    strip_parens!(strip_outer_parens_utf8_le3, 3);
+    strip_parens!(strip_outer_parens_utf8_le4, 4);
 
     fn mk(kind: u8) -> Value {
         match kind {
